@@ -263,4 +263,34 @@ Section PopFacts.
     assert (Hn1 : nan_free t1) by (eapply nan_free_suffix; eassumption).
     destruct (or_climb_ok _ _ _ _ _ _ Hb Hn1 H) as (A & B & C). split; [exact A|]. split; [eapply is_suffix_trans; eassumption|lia].
   Qed.
+
+  (* ---------- evolution strategy ---------- *)
+  Lemma hill_iterate_ok t p t' c : nan_free t -> hill_iterate sp cons fuel rrp t = Ok (p, t', c) -> emit p /\ is_suffix t' t.
+  Proof.
+    intros Hn H. unfold hill_iterate in H.
+    apply (rand_iter_ok emit _ _ _ _ _ _ (fun q Hq => Hq)) in H; [exact H| |exact Hn].
+    intros t0 p0 t0' c0 Hn0 Hb0. destruct (move_climb_ok sp cons Hdims _ _ _ _ _ _ Hn0 Hb0) as (A & B & _). split; assumption.
+  Qed.
+
+  Theorem es_iterate_ok mut curs t p t' c : Forall (in_box sp) curs -> nan_free t ->
+    es_iterate sp cons fuel rrp mut curs t = Ok (p, t', c) -> emit p /\ is_suffix t' t.
+  Proof.
+    intros HP Hn H. unfold es_iterate in H. destruct (zlen curs =? 1); [eapply hill_iterate_ok; eassumption|].
+    destruct t as [|[r| | | |] [|[| um ue | | |] t1]]; try discriminate.
+    destruct (negb ((0 <=? r) && (r <? zlen curs))); [discriminate|].
+    assert (Hn1 : nan_free t1) by (do 2 apply nan_free_tail in Hn; exact Hn).
+    assert (S1 : is_suffix t1 (DZ r :: DF um ue :: t1)) by (eapply is_suffix_trans; apply is_suffix_cons).
+    destruct (dyadic_le um ue (fst mut) (snd mut)).
+    - destruct (hill_iterate_ok _ _ _ _ Hn1 H) as (A & B). split; [exact A|eapply is_suffix_trans; eassumption].
+    - destruct t1 as [|[r2| | | |] t2]; try discriminate.
+      destruct (negb _); [discriminate|].
+      destruct (nth_nowrap curs r) as [a|] eqn:Ea; cbn [bind] in H; [|discriminate].
+      destruct (nth_nowrap curs r2) as [b|] eqn:Eb; cbn [bind] in H; [|discriminate].
+      assert (HP2 : Forall (in_box sp) [a; b]).
+      { rewrite Forall_forall in HP. constructor; [apply HP; eapply nth_nowrap_in; eassumption|].
+        constructor; [apply HP; eapply nth_nowrap_in; eassumption|constructor]. }
+      assert (Hn2 : nan_free t2) by (apply nan_free_tail in Hn1; exact Hn1).
+      destruct (cross_or_climb_ok _ _ _ _ _ HP2 Hn2 H) as (A & B & _). split; [exact A|].
+      eapply is_suffix_trans; [exact B|]. eapply is_suffix_trans; [apply is_suffix_cons|exact S1].
+  Qed.
 End PopFacts.
